@@ -67,13 +67,20 @@ def type_name(i):
 def build(pats, chunk_id):
     """One library: every pattern is a resource visible to service Res."""
     msgs, defs, cells = [], [], []
+    dep_defs, dep_msgs = [], []
     rq_fields, rs_fields = [field('name', 1, 'string')], []
     for j, pat in enumerate(pats):
         i = chunk_id * 10000 + j
         tn = type_name(j)
         rtype = f'{DOM}/{tn}'
-        src = j % 4
-        if src == 0:      # message resource used as a response field type
+        src = j % 6
+        if src == 4:      # file-level definition in an imported file of another package
+            dep_defs.append((rtype, pat))
+            rq_fields.append(field(f'f{j}', len(rq_fields) + 1, 'string', ref=rtype))
+        elif src == 5:    # message resource in an imported file of another package, referenced by type
+            dep_msgs.append(message(tn, [field('name', 1, 'string')], resource=(rtype, pat)))
+            rq_fields.append(field(f'f{j}', len(rq_fields) + 1, 'string', ref=rtype))
+        elif src == 0:      # message resource used as a response field type
             msgs.append(message(tn, [field('name', 1, 'string')], resource=(rtype, pat)))
             rs_fields.append(field(f'f{j}', len(rs_fields) + 1, Q(tn)))
         elif src == 1:    # file-level definition referenced by a request field
@@ -85,13 +92,17 @@ def build(pats, chunk_id):
         else:             # message resource referenced through type
             msgs.append(message(tn, [field('name', 1, 'string')], resource=(rtype, pat)))
             rq_fields.append(field(f'f{j}', len(rq_fields) + 1, 'string', ref=rtype))
-        cells.append(dict(id=f'{["msg-field", "file-def", "child-type", "type-ref"][src]}:{pat}', pattern=pat,
+        cells.append(dict(id=f'{["msg-field", "file-def", "child-type", "type-ref", "dep-file-def", "dep-msg-ref"][src]}:{pat}', pattern=pat,
                           helper=names.snake(tn), source=src))
     msgs.append(message('GetRq', rq_fields))
     msgs.append(message('GetRs', rs_fields))
     f = file('acme/res/v1/res.proto', P, messages=msgs, resource_defs=defs,
              services=[service('Res', [method('Get', Q('GetRq'), Q('GetRs'))])])
-    req = request([f], 'transport=grpc,autogen-snippets=false')
+    dep = file('acme/shared/v1/resources.proto', 'acme.shared.v1', messages=dep_msgs, resource_defs=dep_defs)
+    std = desc.std_dep_names()
+    dep.dependency.extend(std)
+    f.dependency.extend(std + [dep.name])
+    req = request([f], 'transport=grpc,autogen-snippets=false', extra_dep_files=[dep])
     desc.gate(req)
     return req, cells
 
